@@ -2,6 +2,7 @@ package sim
 
 import (
 	"bufio"
+	"encoding/base64"
 	"bytes"
 	"encoding/binary"
 	"encoding/json"
@@ -135,6 +136,18 @@ func (r *Recorder) Genesis(c *Chain, extra map[string]interface{}) {
 func (r *Recorder) Tx(c *Chain, signer string, msgs []map[string]interface{}, res TxResult, extra map[string]interface{}) {
 	m := map[string]interface{}{"k": "tx", "signer": signer, "m": msgs, "code": res.Code, "cs": res.Codespace,
 		"gasWanted": res.GasWanted, "gasUsed": res.GasUsed, "h": c.Height, "t": nsStr(c.Time), "st": r.takeState(c)}
+	// contract LOG events and internal calls that made it into the transaction's events
+	logs := []interface{}{}
+	for _, ev := range res.Events {
+		if ev.Type == cvmtypes.EventTypeCVMEvent {
+			for _, a := range ev.Attributes {
+				if string(a.Key) == "address" {
+					logs = append(logs, hexOfBech(string(a.Value)))
+				}
+			}
+		}
+	}
+	m["logs"] = logs
 	if res.Code != 0 {
 		l := res.Log
 		if len(l) > 160 {
@@ -302,14 +315,16 @@ func observeModule(c *Chain, ctx sdk.Context, m string) interface{} {
 		return map[string]interface{}{"bal": bal, "supply": CoinsJ(bk.GetSupply(ctx).GetTotal())}
 	case "vesting":
 		out := []interface{}{}
+		all := []interface{}{}
 		c.App.VerifAccountKeeper().IterateAccounts(ctx, func(a authtypes.AccountI) bool {
+			all = append(all, Hex(a.GetAddress()))
 			if mva, ok := a.(*vesting.ManualVestingAccount); ok {
 				out = append(out, map[string]interface{}{"addr": Hex(mva.GetAddress()), "ov": CoinsJ(mva.OriginalVesting), "vested": CoinsJ(mva.VestedCoins),
 					"dv": CoinsJ(mva.DelegatedVesting), "df": CoinsJ(mva.DelegatedFree), "unlocker": hexOfBech(mva.Unlocker)})
 			}
 			return false
 		})
-		return out
+		return map[string]interface{}{"mva": out, "accounts": all}
 	case "oracle":
 		k := c.App.VerifOracleKeeper()
 		ops := []interface{}{}
@@ -406,7 +421,30 @@ func observeModule(c *Chain, ctx sdk.Context, m string) interface{} {
 		v["unretrievable"] = unret
 		return v
 	case "cvm":
-		return exportJ(c, ctx, "cvm")
+		v := exportJ(c, ctx, "cvm").(map[string]interface{})
+		// canonical renderings: lower-case hex addresses, hex storage values
+		if cs, ok := v["contracts"].([]interface{}); ok {
+			for _, ci := range cs {
+				cm := ci.(map[string]interface{})
+				if a, ok := cm["Address"].(string); ok {
+					cm["Address"] = strings.ToLower(a)
+				}
+				if st, ok := cm["storage"].([]interface{}); ok {
+					for _, si := range st {
+						sm := si.(map[string]interface{})
+						if k, ok := sm["key"].(string); ok {
+							sm["key"] = strings.ToLower(k)
+						}
+						if val, ok := sm["value"].(string); ok {
+							if bz, err := base64.StdEncoding.DecodeString(val); err == nil {
+								sm["value"] = Hex(bz)
+							}
+						}
+					}
+				}
+			}
+		}
+		return v
 	case "staking":
 		v := exportJ(c, ctx, "staking").(map[string]interface{})
 		v["bonded_pool"] = modBal(c, ctx, stakingtypes.BondedPoolName)
